@@ -124,8 +124,12 @@ fn recover(
                 user_repair_tfc(&prog, &te, y).await;
             }
         }
-        let order: Vec<u32> =
-            if descending { (0..n).rev().collect() } else { (0..n).collect() };
+        // partial nodes are only ever read under their guard
+        let order: Vec<u32> = if descending {
+            (0..n).rev().filter(|y| !prog.is_partial(*y)).collect()
+        } else {
+            (0..n).filter(|y| !prog.is_partial(*y)).collect()
+        };
         let mut observed: BTreeMap<u32, Val> = BTreeMap::new();
         for y in order {
             observed.insert(y, user_query(&prog, &te, y).await);
@@ -183,7 +187,7 @@ fn recover(
             }
         };
         let mut oracle = Oracle::new(&prog, &leaves);
-        for y in 0..n {
+        for y in (0..n).filter(|y| !prog.is_partial(*y)) {
             let expect = oracle.node(y);
             if observed[&y] != expect {
                 res.violation = Some(format!(
@@ -247,7 +251,7 @@ fn recover(
             Step::Query(n - 1),
             Step::Restart,
             Step::Query(n - 1),
-            Step::Query(n / 2),
+            Step::Query(prog.queryable(n / 2)),
         ];
         for st in &cont {
             r.step(st).await;
